@@ -32,6 +32,8 @@ import (
 // returned the injected error) the subscriber is counted as "maybe live" and
 // every count is checked against the resulting interval.
 
+const c05Unknown = "?" // holds (possibly) a unit, which one is not known
+
 type c05sub struct {
 	val       string
 	lo, hi    int  // epoch of the last renewal: certainly / possibly
@@ -164,7 +166,9 @@ func (w *c05world) given(id int, v, how string) {
 		delete(w.subs, t)
 	}
 	for _, t := range maybe {
-		delete(w.subs, t) // the open outcome is now known: the unit was free
+		// this unit was free after all; the subscriber whose fate is open may still
+		// hold some other unit (a lease-mode reload re-assigns addresses)
+		w.subs[t].val = c05Unknown
 	}
 	s := w.subs[id]
 	if s == nil {
@@ -181,6 +185,18 @@ func (w *c05world) given(id int, v, how string) {
 	}
 	s.val, s.lo, s.hi, s.unsureRel = v, w.epoch, w.epoch, false
 	w.unitEv[v] = "held"
+}
+
+// unknownHolders: possibly-live subscribers whose unit is not known; each may
+// occupy one of the units that look free.
+func (w *c05world) unknownHolders() int {
+	n := 0
+	for _, s := range w.subs {
+		if s.val == c05Unknown && w.maybe(s) {
+			n++
+		}
+	}
+	return n
 }
 
 func (w *c05world) freeUnits() (free []string) {
@@ -270,7 +286,7 @@ func (w *c05world) drain() {
 			missing = append(missing, u)
 		}
 	}
-	if len(missing) > 0 && lastErr != nil {
+	if len(missing) > w.unknownHolders() && lastErr != nil {
 		w.refused(missing, "a fresh subscriber of the drain probe", lastErr)
 	}
 	if lastErr == nil && len(ids) >= limit {
@@ -499,7 +515,7 @@ func c05Run(c *sim.Ctx) {
 				}
 			} else if !w.maybe(s) {
 				// a new subscriber was refused with no fault injected
-				if free := w.freeUnits(); len(free) > 0 {
+				if free := w.freeUnits(); len(free) > w.unknownHolders() {
 					w.refused(free, fmt.Sprintf("Allocate for new subscriber %d", id), err)
 				}
 			}
@@ -715,8 +731,8 @@ func init() {
 		Stub: []string{"allocator.Store (in-memory key-value store: Query order, Put/Delete/Get failures at a chosen call index, watch echo of local writes)",
 			"AllocationStore wrapper that fails SaveAllocation/RemoveAllocation at a chosen call", "persistence medium of marshal/unmarshal reloads (a byte slice)"},
 		Rule: "cases: one pool variant x geometry x 2-6 subscribers x 5-40 allocate/release/renew/epoch-burst(1-9)/tick/reload(x1-3)/re-applied record/store-fault/drain ops, audited after every op and drained at the end; non-trivial = >=3 completed operations and (a fault fired or >2 context switches or a preemption); distinct = distinct (case hash, schedule fingerprint)",
-		QuickRuns:    6000,
-		ThoroughRuns: 1200000,
+		QuickRuns:    15000,
+		ThoroughRuns: 1500000,
 		Assumptions: []string{"a lease is live while (current epoch - epoch of last allocate/renew) <= configured grace", "a Release or Renew that returned the injected store error leaves the subscriber 'possibly live'; counts are checked against the interval",
 			"a reload of a store-backed lease pool may restart the lease clock of the records it loads", "usable units are computed from the configuration as documented by each pool; values outside them are C01's concern and are not counted",
 			"utilisation may be reported as a fraction or as a percentage"},
